@@ -29,9 +29,13 @@ is purely syntactic, the evaluation of the term happens in Coq (Model/C08.v: exe
 """
 import ast, inspect, collections, collections.abc
 from common import *
+import failclosed
 
 SRC = 'oslo_utils/strutils.py'
 FN = 'mask_dict_password'
+# both functions must be the definitions bound to their names at run time (tools/gen/failclosed.py); the defaults are emitted
+FAILCLOSED = {'generate_shape': [{'src': SRC, 'mod': 'oslo_utils.strutils',
+    'functions': {FN: {'defaults': {'secret': failclosed.ANY}}, 'mask_password': {'defaults': {'secret': failclosed.ANY}}}}]}
 EXN_NAMES = ['KeyError', 'AttributeError', 'IndexError', 'ValueError', 'TypeError', 'RuntimeError',
              'UnicodeDecodeError', 'OverflowError', 'StopIteration', 'OSError']
 
@@ -244,6 +248,7 @@ class _Tr:
 
 
 def generate_shape():
+    failclosed.check_all(FAILCLOSED['generate_shape'])
     m = repo_import('oslo_utils.strutils')
     tree = repo_ast(SRC)
     f = find_def(tree, FN)
